@@ -1491,8 +1491,9 @@ def _int_coeffs(f):
 
 
 def corr_models(ctx):
-    """TFIM and the one-body models: real dense builder and real symbolic builder vs the
-    model's `tfimDense` / `dense (tfimForm)` / `oneBodyDense` / `dense (oneBodyForm)`."""
+    """TFIM, the one-body models and Heisenberg / XXX / XXZ: real dense builder and real
+    symbolic builder vs the model's `tfimDense` / `dense (tfimForm)`, `oneBodyDense` /
+    `dense (oneBodyForm)`, `heisDense` / `dense (heisForm)`."""
     from qibo import hamiltonians
 
     nmax = 5 if ctx.thorough else 4
@@ -1505,6 +1506,20 @@ def corr_models(ctx):
             for h in (0, 1, -2, 3):
                 lines.append(f"TFIM {n} {h} 0")
                 meta.append(("TFIM", n, h))
+            # Heisenberg (and XXX / XXZ, which call it): fixed boundary cases + seeded random couplings / fields
+            heis = [((1, 1, 1), (0, 0, 0)), ((1, 2, -3), (0, 1, 0)), ((0, 0, 2), (1, -1, 2)), ((-1, 0, 1), (0, 0, 3))]
+            for _ in range(3 if ctx.thorough else 2):
+                heis.append((tuple(ctx.rng.randint(-3, 3) for _ in range(3)), tuple(ctx.rng.choice([0, 0, 1, -2, 3]) for _ in range(3))))
+            big = n >= 5  # the interpreted model needs ~30 s per 5-qubit Heisenberg case: keep three
+            for J, hh in (heis[1:3] if big else heis):
+                lines.append(f"HEIS {n} {' '.join(map(str, J))} {' '.join(map(str, hh))}")
+                meta.append(("HEIS", n, (J, hh)))
+            for delta in ((2,) if big else (0, 2, -1)):
+                lines.append(f"HEIS {n} -1 -1 {-delta} 0 0 0")
+                meta.append(("XXZ", n, delta))
+            for c, hh in (() if big else ((2, (0, 0, 0)), (-1, (1, 0, -2)))):
+                lines.append(f"HEIS {n} {c} {c} {c} {' '.join(map(str, hh))}")
+                meta.append(("XXX", n, (c, hh)))
     outs = run_driver(lines, driver=DRIVER)
     bad = 0
     for (kind, n, par), out in zip(meta, outs):
@@ -1517,17 +1532,34 @@ def corr_models(ctx):
                 rs = np.asarray(getattr(hamiltonians, par)(n, dense=False).matrix).reshape(-1)
                 call = f"hamiltonians.{par}({n}, dense=DENSE)"
                 M = model_formula(par, n)
-            else:
+            elif kind == "TFIM":
                 rd = np.asarray(hamiltonians.TFIM(n, h=par, dense=True).matrix).reshape(-1)
                 rs = np.asarray(hamiltonians.TFIM(n, h=par, dense=False).matrix).reshape(-1)
                 call = f"hamiltonians.TFIM({n}, h={par}, dense=DENSE)"
                 M = model_formula("TFIM", n, h=par)
+            elif kind == "HEIS":
+                J, hh = par
+                rd = np.asarray(hamiltonians.Heisenberg(n, list(J), list(hh), dense=True).matrix).reshape(-1)
+                rs = np.asarray(hamiltonians.Heisenberg(n, list(J), list(hh), dense=False).matrix).reshape(-1)
+                call = f"hamiltonians.Heisenberg({n}, {list(J)}, {list(hh)}, dense=DENSE)"
+                M = model_formula("Heisenberg", n, J=J, h=hh)
+            elif kind == "XXZ":
+                rd = np.asarray(hamiltonians.XXZ(n, delta=par, dense=True).matrix).reshape(-1)
+                rs = np.asarray(hamiltonians.XXZ(n, delta=par, dense=False).matrix).reshape(-1)
+                call = f"hamiltonians.XXZ({n}, delta={par}, dense=DENSE)"
+                M = model_formula("XXZ", n, delta=par)
+            else:
+                c, hh = par
+                rd = np.asarray(hamiltonians.XXX(n, c, list(hh), dense=True).matrix).reshape(-1)
+                rs = np.asarray(hamiltonians.XXX(n, c, list(hh), dense=False).matrix).reshape(-1)
+                call = f"hamiltonians.XXX({n}, {c}, {list(hh)}, dense=DENSE)"
+                M = model_formula("Heisenberg", n, J=(c, c, c), h=hh)
         except Exception:
             rd = rs = np.zeros(0)
         if not (np.array_equal(rd, A) and np.array_equal(rs, B)):
             bad += 1
             which = "dense" if not np.array_equal(rd, A) else "symbolic"
-            name = par if kind == "ONE" else "TFIM"
+            name = par if kind == "ONE" else {"TFIM": "TFIM", "HEIS": "Heisenberg", "XXZ": "XXZ", "XXX": "XXX"}[kind]
             fail(ctx, f"model:{name}:{which}", f"{call.replace('DENSE', str(which == 'dense'))} differs from the model builder",
                  PRE + f"h = {call.replace('DENSE', str(which == 'dense'))}\nM = {arr_src(M)}\nassert np.allclose(h.matrix, M, atol=1e-9)\n",
                  broken=["C15_corr_models"])
@@ -1866,7 +1898,7 @@ def run(ctx):
         "correspondence: random Pauli-polynomial forms (n<=4, several factors per qubit, powers<=4, nested sums in products/powers, "
         "Gaussian-integer coefficients as python complex / sympy Integer+I, custom 2x2 integer symbols, Hermitian and not) — real dense matrix, "
         "h@psi, h@rho, term list (coefficients, ordered factors, target qubits, term matrices, constant) and sympy's expansion vs the Lean model, exactly; "
-        "Z-string expectation_from_samples of both classes under all/random qubit-map permutations; TFIM and X/Y/Z builders n<=4(5). "
+        "Z-string expectation_from_samples of both classes under all/random qubit-map permutations; TFIM, X/Y/Z, Heisenberg / XXX / XXZ builders n<=4(5). "
         "search: the same observables plus expectation (state/DM, normalize), algebra histories (+ - scalar @, both classes, mixed refused), "
         "eigen/exp caches across scalar multiples of every sign, samples with dict/Counter/tuple maps/subset maps, all builders of models.py n<=5(6) vs explicit formulas, setters; "
         "algebra histories (lean/QV/Model/HamilAlg.lean): 2-3 symbolic objects, 2-6 steps of + - @ scalar multiples/shifts, c - h with operands read (h @ state) or fresh before each step — "
